@@ -118,31 +118,31 @@ def segWF (cu : Culture) (used : Nat) (segs : List Seg) : Bool :=
   * the text that follows does not continue `a` into a longer candidate: its first character (lower-cased) is none
     of `dangerChars` — the characters by which some candidate strictly extends `a` (`tailSafe`). -/
 
-def ciEq (x y : Text) : Bool := decide (x.map asciiLower = y.map asciiLower)
+def ciEq (low : Char → Char) (x y : Text) : Bool := decide (x.map low = y.map low)
 
 /-- `c` is strictly longer than `a` and starts with `a` up to ASCII case -/
-def strictExt (c a : Text) : Bool := decide (a.length < c.length) && ciEq (c.take a.length) a
+def strictExt (low : Char → Char) (c a : Text) : Bool := decide (a.length < c.length) && ciEq low (c.take a.length) a
 
 /-- does a position other than `K` (positions counted from `i`) hold a name of `a`'s length equal to `a` up to case? -/
-def clashAt (a : Text) (K : Nat) : List Text → Nat → Bool
+def clashAt (low : Char → Char) (a : Text) (K : Nat) : List Text → Nat → Bool
   | [], _ => false
-  | c :: cs, i => (decide (i ≠ K) && decide (c.length = a.length) && ciEq c a) || clashAt a K cs (i + 1)
+  | c :: cs, i => (decide (i ≠ K) && decide (c.length = a.length) && ciEq low c a) || clashAt low a K cs (i + 1)
 
 /-- the (lower-cased) characters by which candidates strictly extend `a` -/
-def dangerOf (a : Text) : List Text → List Char
+def dangerOf (low : Char → Char) (a : Text) : List Text → List Char
   | [] => []
-  | c :: cs => if strictExt c a then asciiLower (c.getD a.length ' ') :: dangerOf a cs else dangerOf a cs
+  | c :: cs => if strictExt low c a then low (c.getD a.length ' ') :: dangerOf low a cs else dangerOf low a cs
 
-def nameOK (t1 : List Text) (t2 : Option (List Text)) (K : Nat) (a : Text) : Bool :=
-  decide (a ≠ []) && !clashAt a K t1 0 && !clashAt a K (t2.getD []) 0
+def nameOK (low : Char → Char) (t1 : List Text) (t2 : Option (List Text)) (K : Nat) (a : Text) : Bool :=
+  decide (a ≠ []) && !clashAt low a K t1 0 && !clashAt low a K (t2.getD []) 0
 
-def dangerChars (t1 : List Text) (t2 : Option (List Text)) (a : Text) : List Char :=
-  dangerOf a t1 ++ dangerOf a (t2.getD [])
+def dangerChars (low : Char → Char) (t1 : List Text) (t2 : Option (List Text)) (a : Text) : List Char :=
+  dangerOf low a t1 ++ dangerOf low a (t2.getD [])
 
 /-- the following text does not start (up to case) with one of the characters `ds` -/
-def tailSafe (ds : List Char) : Text → Bool
+def tailSafe (low : Char → Char) (ds : List Char) : Text → Bool
   | [] => true
-  | x :: _ => !ds.contains (asciiLower x)
+  | x :: _ => !ds.contains (low x)
 
 /-- the second table of the month parse action (`None` when genitive and plain names coincide) -/
 def monthSecond (cu : Culture) (count : Nat) : Option (List Text) :=
@@ -153,52 +153,52 @@ def monthSecond (cu : Culture) (count : Nat) : Option (List Text) :=
 def monthNamesOK (cu : Culture) (count : Nat) (genitive : Bool) : Bool :=
   (List.range 12).all fun k =>
     match (monthTable cu count genitive)[k + 1]? with
-    | some a => nameOK (monthTable cu count true) (monthSecond cu count) (k + 1) a
+    | some a => nameOK (lowC cu) (monthTable cu count true) (monthSecond cu count) (k + 1) a
     | none => false
 
 def monthDanger (cu : Culture) (count : Nat) (genitive : Bool) : List Char :=
   (List.range 12).flatMap fun k =>
-    dangerChars (monthTable cu count true) (monthSecond cu count) ((monthTable cu count genitive).getD (k + 1) [])
+    dangerChars (lowC cu) (monthTable cu count true) (monthSecond cu count) ((monthTable cu count genitive).getD (k + 1) [])
 
 /-- **NamesOK** for day names (Monday = 1 … Sunday = 7) -/
 def dayNamesOK (cu : Culture) (count : Nat) : Bool :=
   (List.range 7).all fun k =>
     match (dayTable cu count)[k + 1]? with
-    | some a => nameOK (dayTable cu count) none (k + 1) a
+    | some a => nameOK (lowC cu) (dayTable cu count) none (k + 1) a
     | none => false
 
 def dayDanger (cu : Culture) (count : Nat) : List Char :=
-  (List.range 7).flatMap fun k => dangerChars (dayTable cu count) none ((dayTable cu count).getD (k + 1) [])
+  (List.range 7).flatMap fun k => dangerChars (lowC cu) (dayTable cu count) none ((dayTable cu count).getD (k + 1) [])
 
 /-- am/pm designators can be told apart by the parse action: `t` compares first characters (am first), `tt` tries
     the longer designator first, so the shorter must not be a prefix of it up to case.  With an empty designator
     nothing is required here (`amPmDanger`). -/
 def amPmOK (cu : Culture) (count : Nat) : Bool :=
   if cu.am = [] ∨ cu.pm = [] then true
-  else if count = 1 then !ciEq (cu.am.take 1) (cu.pm.take 1)
+  else if count = 1 then !ciEq (lowC cu) (cu.am.take 1) (cu.pm.take 1)
   else
     let pmLonger := decide (cu.pm.length > cu.am.length)
     let longer := if pmLonger then cu.pm else cu.am
     let shorter := if pmLonger then cu.am else cu.pm
-    !ciEq (longer.take shorter.length) shorter
+    !ciEq (lowC cu) (longer.take shorter.length) shorter
 
 /-- one designator empty: the other half-day writes nothing, and the text that follows must then not start with the
     specified designator's first character -/
 def amPmDanger (cu : Culture) (_count : Nat) : List Char :=
   if cu.am = [] ∧ cu.pm = [] then []
-  else if cu.am = [] then (cu.pm.take 1).map asciiLower
-  else if cu.pm = [] then (cu.am.take 1).map asciiLower
+  else if cu.am = [] then (cu.pm.take 1).map (lowC cu)
+  else if cu.pm = [] then (cu.am.take 1).map (lowC cu)
   else []
 
 /-- scan of the era names in parse order for the primary name `P` of era `e`: `some ds` = the first name that
     matches `P` itself is a name of era `e` of `P`'s length, `ds` the characters by which earlier names extend `P` -/
-def eraScan (P : Text) (e : Int) : List (Int × Text) → Option (List Char)
+def eraScan (low : Char → Char) (P : Text) (e : Int) : List (Int × Text) → Option (List Char)
   | [] => none
   | (e', n) :: ns =>
-    if decide (n.length ≤ P.length) && ciEq (P.take n.length) n then
+    if decide (n.length ≤ P.length) && ciEq low (P.take n.length) n then
       (if n.length = P.length ∧ e' = e then some [] else none)
-    else if strictExt n P then (eraScan P e ns).map (fun ds => asciiLower (n.getD P.length ' ') :: ds)
-    else eraScan P e ns
+    else if strictExt low n P then (eraScan low P e ns).map (fun ds => low (n.getD P.length ' ') :: ds)
+    else eraScan low P e ns
 
 def eraCands (cu : Culture) : List (Int × Text) :=
   cu.eraNamesBCE.map (fun n => ((0 : Int), n)) ++ cu.eraNamesCE.map (fun n => ((1 : Int), n))
@@ -207,21 +207,21 @@ def eraPrimary (cu : Culture) (e : Int) : Text := if e = 1 then cu.eraPrimaryCE 
 
 /-- the primary era names are read back as their era -/
 def eraOK (cu : Culture) : Bool :=
-  (eraScan cu.eraPrimaryBCE 0 (eraCands cu)).isSome && (eraScan cu.eraPrimaryCE 1 (eraCands cu)).isSome &&
+  (eraScan (lowC cu) cu.eraPrimaryBCE 0 (eraCands cu)).isSome && (eraScan (lowC cu) cu.eraPrimaryCE 1 (eraCands cu)).isSome &&
     decide (cu.eraPrimaryBCE ≠ []) && decide (cu.eraPrimaryCE ≠ [])
 
 def eraDanger (cu : Culture) : List Char :=
-  (eraScan cu.eraPrimaryBCE 0 (eraCands cu)).getD [] ++ (eraScan cu.eraPrimaryCE 1 (eraCands cu)).getD []
+  (eraScan (lowC cu) cu.eraPrimaryBCE 0 (eraCands cu)).getD [] ++ (eraScan (lowC cu) cu.eraPrimaryCE 1 (eraCands cu)).getD []
 
 /-- the same for the only era of the single-era calendar `cal`: its primary name is read back as that era -/
 def eraCandsC (cu : Culture) (cal : Nat) : List (Int × Text) :=
   (eraNamesOf cu (eraIdOfCal cal)).map (fun n => (eraIdOfCal cal, n))
 
 def eraCOK (cu : Culture) (cal : Nat) : Bool :=
-  (eraScan (eraPrimaryOf cu (eraIdOfCal cal)) (eraIdOfCal cal) (eraCandsC cu cal)).isSome &&
+  (eraScan (lowC cu) (eraPrimaryOf cu (eraIdOfCal cal)) (eraIdOfCal cal) (eraCandsC cu cal)).isSome &&
     decide (eraPrimaryOf cu (eraIdOfCal cal) ≠ [])
 
 def eraCDanger (cu : Culture) (cal : Nat) : List Char :=
-  (eraScan (eraPrimaryOf cu (eraIdOfCal cal)) (eraIdOfCal cal) (eraCandsC cu cal)).getD []
+  (eraScan (lowC cu) (eraPrimaryOf cu (eraIdOfCal cal)) (eraIdOfCal cal) (eraCandsC cu cal)).getD []
 
 end Pyoda.Text
